@@ -29,6 +29,18 @@
 namespace adept {
   namespace internal {
 
+#ifdef RJHOGAN_ADEPT_2_VERIF
+    // Verification hook: an optional callback receives one event per
+    // buffer operation: 'c' check_space(n), 'p' push_rhs, 'i'
+    // push_rhs_indices, 'l' push_lhs, 'r' push_lhs_range(n), 'g'/'s'
+    // growth of the operation/statement stack to a new size, and 'F'
+    // for a write at or beyond the allocated length, which is then
+    // reported instead of being performed
+    typedef void (*verif_event_fn)(char kind, long a, long b);
+    extern verif_event_fn verif_event_;
+#define ADEPT_VERIF_EVENT(K,A,B) do { if (adept::internal::verif_event_) adept::internal::verif_event_(K,A,B); } while (0)
+#endif
+
     class StackStorageOrig {
     public:
       // Constructor
@@ -44,6 +56,14 @@ namespace adept {
       // stack.  We assume here that check_space() as been called before
       // so there is enough space to hold these elements.
       void push_rhs(const Real& multiplier, const uIndex& gradient_index) {
+#ifdef RJHOGAN_ADEPT_2_VERIF
+	if (n_operations_ >= n_allocated_operations_) {
+	  ADEPT_VERIF_EVENT('F', n_operations_, n_allocated_operations_);
+	  ++n_operations_;
+	  return;
+	}
+	ADEPT_VERIF_EVENT('p', n_operations_, n_allocated_operations_);
+#endif
 #ifdef ADEPT_REMOVE_NULL_STATEMENTS
 	// If multiplier==0 then the resulting statement would have no
 	// effect so we can speed up the subsequent adjoint/jacobian
@@ -71,6 +91,14 @@ namespace adept {
       // multipliers will be added later.
       template <Index Num, Index Stride>
       void push_rhs_indices(const uIndex& gradient_index) {
+#ifdef RJHOGAN_ADEPT_2_VERIF
+	if (n_operations_+(Num-1)*Stride >= n_allocated_operations_) {
+	  ADEPT_VERIF_EVENT('F', n_operations_+(Num-1)*Stride, n_allocated_operations_);
+	  ++n_operations_;
+	  return;
+	}
+	ADEPT_VERIF_EVENT('i', Num, Stride);
+#endif
 	for (Index i = 0; i < Num; ++i) {
 	  index_[n_operations_+i*Stride] = gradient_index+i;
 	}
@@ -83,6 +111,9 @@ namespace adept {
       // "end_plus_one" element is simply the current length of the
       // operation list
       void push_lhs(const uIndex& gradient_index) {
+#ifdef RJHOGAN_ADEPT_2_VERIF
+	ADEPT_VERIF_EVENT('l', n_statements_, n_allocated_statements_);
+#endif
 #ifndef ADEPT_MANUAL_MEMORY_ALLOCATION
 	if (n_statements_ >= n_allocated_statements_) {
 	  grow_statement_stack();
@@ -100,6 +131,9 @@ namespace adept {
       // references, since they may be compile-time constants for
       // FixedArray objects.
       void push_lhs_range(const uIndex& first, uIndex n, uIndex stride = 1) {
+#ifdef RJHOGAN_ADEPT_2_VERIF
+	ADEPT_VERIF_EVENT('r', n, stride);
+#endif
 	uIndex last_plus_1 = first+n*stride;
 #ifndef ADEPT_MANUAL_MEMORY_ALLOCATION
 	if (n_statements_+n > n_allocated_statements_) {
@@ -115,6 +149,9 @@ namespace adept {
       // Check whether the operation stack contains enough space for n
       // new operations; if not, grow it
       void check_space(uIndex n) {
+#ifdef RJHOGAN_ADEPT_2_VERIF
+	ADEPT_VERIF_EVENT('c', n, 0);
+#endif
 	if (n_allocated_operations_ < n_operations_+n+1) {
 	  grow_operation_stack(n);
 	}
